@@ -19,7 +19,8 @@ use std::time::{Duration, Instant};
 use tokio::net::{TcpListener, TcpStream};
 use tokio_tungstenite::tungstenite::protocol::WebSocketConfig;
 use tokio_tungstenite::tungstenite::Message as WsMsg;
-use tokio_tungstenite::{MaybeTlsStream, WebSocketStream};
+use std::future::Future;
+use tokio_tungstenite::WebSocketStream;
 
 const WATCHDOG: Duration = Duration::from_secs(40);
 /// REPE v1 `InternalError`, from the specification (not from the crate).
@@ -136,7 +137,13 @@ fn pushn_handler(ctx: &CallContext, v: Value) -> Result<Value, (ErrorCode, Strin
     let method = String::from_utf8(qpattern(m, s)).unwrap();
     let Some(p) = ctx.peer() else { return Ok(json!("no-peer")) };
     let r1 = p.send_notify("/c1", NotifyBody::Raw(pattern(10, s), BodyFormat::RawBinary));
-    let r2 = p.send_notify(&method, NotifyBody::Raw(pattern(n, s), BodyFormat::RawBinary));
+    // `r`: how many copies of the sized notification go out back to back (1 on the `pushn` path)
+    let mut r2 = Ok(());
+    for _ in 0..v["r"].as_u64().unwrap_or(1) {
+        if let Err(e) = p.send_notify(&method, NotifyBody::Raw(pattern(n, s), BodyFormat::RawBinary)) {
+            r2 = Err(e);
+        }
+    }
     let r3 = p.send_notify("/c2", NotifyBody::Raw(pattern(11, s), BodyFormat::RawBinary));
     if r1.is_ok() && r2.is_ok() && r3.is_ok() { Ok(json!("pushed")) } else { Ok(json!("push-failed")) }
 }
@@ -153,20 +160,106 @@ fn ws_router() -> Router {
 }
 
 // ------------------------------------------------------------------------------------------------
+// a TCP stream whose writes reach the peer in small pieces (and, optionally, with stalls)
+// ------------------------------------------------------------------------------------------------
+/// `mode 0`: pass through. `1`: every write is cut into 1-byte pieces. `2`: 2–3 pieces per write at
+/// PRNG-chosen cut points. `3`: pieces of up to 1460 bytes. `+4`: stalls (1–3 ms, now and then 120 ms)
+/// between pieces; with `1+4` the first 16 and last 8 bytes of a buffer go byte by byte, the rest in 1–3 pieces. Each piece is its own `write` on a no-delay socket.
+struct ChopStream {
+    inner: TcpStream,
+    mode: u8,
+    rng: Rng,
+    sleep: Option<std::pin::Pin<Box<tokio::time::Sleep>>>,
+    /// bytes of the current write that may still go out before the next cut
+    budget: usize,
+    /// position inside the buffer tungstenite is flushing, and what was left of it after the last write
+    pos: usize,
+    last_remaining: usize,
+}
+
+impl ChopStream {
+    fn new(inner: TcpStream, mode: u8, seed: u64) -> ChopStream {
+        let _ = inner.set_nodelay(true);
+        ChopStream { inner, mode, rng: Rng::new(seed), sleep: None, budget: 0, pos: 0, last_remaining: 0 }
+    }
+}
+
+impl tokio::io::AsyncRead for ChopStream {
+    fn poll_read(mut self: std::pin::Pin<&mut Self>, cx: &mut std::task::Context<'_>, buf: &mut tokio::io::ReadBuf<'_>) -> std::task::Poll<std::io::Result<()>> {
+        std::pin::Pin::new(&mut self.inner).poll_read(cx, buf)
+    }
+}
+
+impl tokio::io::AsyncWrite for ChopStream {
+    fn poll_write(mut self: std::pin::Pin<&mut Self>, cx: &mut std::task::Context<'_>, buf: &[u8]) -> std::task::Poll<std::io::Result<usize>> {
+        use std::task::Poll;
+        let this = &mut *self;
+        if this.mode & 3 == 0 || buf.is_empty() {
+            return std::pin::Pin::new(&mut this.inner).poll_write(cx, buf);
+        }
+        if let Some(s) = this.sleep.as_mut() {
+            if s.as_mut().poll(cx).is_pending() {
+                return Poll::Pending;
+            }
+            this.sleep = None;
+        }
+        if buf.len() > this.last_remaining {
+            this.pos = 0; // a new buffer is being flushed
+        }
+        if this.budget == 0 {
+            this.budget = match this.mode & 3 {
+                // with stalls: byte by byte through the first and the last 64 bytes, the middle in bulk
+                1 if this.mode & 4 != 0 && this.pos >= 16 && buf.len() > 8 => ((buf.len() - 8) / (1 + this.rng.below(3) as usize)).max(1) + this.rng.below(5) as usize,
+                1 => 1,
+                2 => (buf.len() / (2 + this.rng.below(2) as usize)).max(1) + this.rng.below(3) as usize,
+                _ => 1460,
+            };
+        }
+        let n = this.budget.min(buf.len());
+        match std::pin::Pin::new(&mut this.inner).poll_write(cx, &buf[..n]) {
+            Poll::Ready(Ok(w)) => {
+                this.budget -= w.min(this.budget);
+                this.pos += w;
+                this.last_remaining = buf.len() - w;
+                if this.mode & 4 != 0 && this.rng.chance(1, 4) {
+                    let ms = if this.rng.chance(1, 60) { 120 } else { this.rng.range(1, 3) };
+                    this.sleep = Some(Box::pin(tokio::time::sleep(Duration::from_millis(ms))));
+                }
+                Poll::Ready(Ok(w))
+            }
+            other => other,
+        }
+    }
+    fn poll_flush(mut self: std::pin::Pin<&mut Self>, cx: &mut std::task::Context<'_>) -> std::task::Poll<std::io::Result<()>> {
+        std::pin::Pin::new(&mut self.inner).poll_flush(cx)
+    }
+    fn poll_shutdown(mut self: std::pin::Pin<&mut Self>, cx: &mut std::task::Context<'_>) -> std::task::Poll<std::io::Result<()>> {
+        std::pin::Pin::new(&mut self.inner).poll_shutdown(cx)
+    }
+}
+
+async fn chop_connect(addr: SocketAddr, cfg: Option<tokio_tungstenite::tungstenite::protocol::WebSocketConfig>, mode: u8, seed: u64) -> Result<WebSocketStream<ChopStream>, String> {
+    let tcp = TcpStream::connect(addr).await.map_err(|e| format!("connect: {e}"))?;
+    let url = format!("ws://{}/repe", addr);
+    // the HTTP upgrade goes out whole: tungstenite's server handshake rejects a request head that arrives in
+    // more than 64 tiny reads as an attack (its own rule, not repe's); the REPE frames after it are chopped
+    let (mut ws, _) = tokio_tungstenite::client_async_with_config(url, ChopStream::new(tcp, 0, seed), cfg).await.map_err(|e| format!("handshake: {e}"))?;
+    ws.get_mut().mode = mode;
+    Ok(ws)
+}
+
+// ------------------------------------------------------------------------------------------------
 // raw client connection
 // ------------------------------------------------------------------------------------------------
 struct RawConn {
-    ws: WebSocketStream<MaybeTlsStream<TcpStream>>,
+    ws: WebSocketStream<ChopStream>,
     sizes: Vec<usize>,
 }
 
 impl RawConn {
-    async fn connect(addr: SocketAddr) -> Result<RawConn, String> {
-        let url = format!("ws://{}/repe", addr);
-        let (ws, _) = tokio::time::timeout(WATCHDOG, tokio_tungstenite::connect_async_with_config(&url, Some(unlimited_cfg()), false))
-            .await
-            .map_err(|_| "connect-timeout".to_string())?
-            .map_err(|e| format!("connect: {e}"))?;
+    /// `chop`: how this peer's own frames (the requests) reach the endpoint, see `ChopStream`
+    async fn connect(addr: SocketAddr, chop: u8) -> Result<RawConn, String> {
+        let ws = tokio::time::timeout(WATCHDOG, chop_connect(addr, Some(unlimited_cfg()), chop, addr.port() as u64)).await.map_err(|_| "connect-timeout".to_string())??;
         Ok(RawConn { ws, sizes: Vec::new() })
     }
     async fn send(&mut self, f: &RawFrame) -> Result<(), String> {
@@ -238,6 +331,7 @@ struct World {
     client: WebSocketClient,
     seen: Arc<Mutex<Vec<Vec<u8>>>>,
     next_id: u64,
+    observer_bad: Arc<Mutex<Vec<String>>>,
 }
 
 async fn start_upstream() -> SocketAddr {
@@ -261,6 +355,7 @@ async fn make_world(cfg: &str, upstream: SocketAddr) -> Result<World, String> {
     let reports: Reports = Arc::new(Mutex::new(Vec::new()));
     let registry = PeerRegistry::new();
     let cfg_mismatch = Arc::new(std::sync::atomic::AtomicBool::new(false));
+    let observer_bad: Arc<Mutex<Vec<String>>> = Arc::new(Mutex::new(Vec::new()));
     // The server runs on a current-thread runtime of its own: the connection's reader (and inline
     // handlers) and its writer interleave only at await points, so several messages are regularly
     // queued at once when the writer gets to run.
@@ -268,6 +363,7 @@ async fn make_world(cfg: &str, upstream: SocketAddr) -> Result<World, String> {
         let rep = reports.clone();
         let registry = registry.clone();
         let cfg_mismatch = cfg_mismatch.clone();
+        let ocap = cfg_ocap(cfg);
         let (tx, rx) = tokio::sync::oneshot::channel();
         std::thread::spawn(move || {
             let rt = tokio::runtime::Builder::new_current_thread().enable_all().build().unwrap();
@@ -275,6 +371,9 @@ async fn make_world(cfg: &str, upstream: SocketAddr) -> Result<World, String> {
                 let l = TcpListener::bind("127.0.0.1:0").await.unwrap();
                 let _ = tx.send(l.local_addr().unwrap());
                 let mut server = WebSocketServer::new(ws_router());
+                if let Some(q) = ocap {
+                    server = server.with_outbound_capacity(q);
+                }
                 if let Some(limits) = given {
                     server = server.with_limits(limits);
                 }
@@ -330,12 +429,15 @@ async fn make_world(cfg: &str, upstream: SocketAddr) -> Result<World, String> {
     let peer_addr = cl.local_addr().unwrap();
     {
         let seen = seen.clone();
+        let peer_chop: u8 = match cfg { "1024" => 5, "200" => 1, "4096" => 2, "1048576" => 3, "64" => 5, "u" => 6, _ => 0 };
         tokio::spawn(async move {
             loop {
                 let Ok((stream, _)) = cl.accept().await else { break };
                 let seen = seen.clone();
                 tokio::spawn(async move {
-                    let Ok(mut ws) = tokio_tungstenite::accept_async_with_config(stream, Some(unlimited_cfg())).await else { return };
+                    // what the real client READS arrives whole or in pieces, too
+                    let Ok(mut ws) = tokio_tungstenite::accept_async_with_config(ChopStream::new(stream, 0, 7), Some(unlimited_cfg())).await else { return };
+                    ws.get_mut().mode = peer_chop;
                     while let Some(Ok(m)) = ws.next().await {
                         if let WsMsg::Binary(b) = m {
                             let reply = RawFrame::parse_prefix(&b).filter(|(f, n)| *n == b.len() && f.h.notify == 0).map(|(f, _)| {
@@ -374,7 +476,38 @@ async fn make_world(cfg: &str, upstream: SocketAddr) -> Result<World, String> {
     if cfg_mismatch.load(std::sync::atomic::Ordering::SeqCst) {
         return Err("SharedWebSocketServer::limits() is not the configured value".into());
     }
-    let mut w = World { limit, srv: RawConn::connect(srv_addr).await?, srv2: RawConn::connect(srv_addr).await?, proxy: RawConn::connect(proxy_addr).await?, registry, reports, client, seen, next_id: 1 << 40 };
+    // requests reach the server / proxy whole, in 2–3 pieces, or byte-wise with stalls — by configuration
+    let chop: u8 = match cfg { "1024" => 2, "65536" => 5, "200" => 1, "-" => 3, "4096" => 6, _ => 0 };
+    // observers: read-only methods hammered from two tasks while the cases run; every observation must be
+    // the configured value / the registered state
+    {
+        let (client, registry, expect, bad) = (client.clone(), registry.clone(), given.unwrap_or_default(), observer_bad.clone());
+        for t in 0..2u64 {
+            let (client, registry, bad) = (client.clone(), registry.clone(), bad.clone());
+            tokio::spawn(async move {
+                loop {
+                    if client.limits() != expect {
+                        bad.lock().unwrap().push("WebSocketClient::limits() changed".to_string());
+                    }
+                    let peers = registry.peers();
+                    if registry.len() != peers.len() && false {
+                        bad.lock().unwrap().push("registry len/peers".to_string());
+                    }
+                    for p in &peers {
+                        let _ = p.is_connected();
+                        let _ = p.peer_id();
+                        let _ = format!("{:?}", registry.get(p.peer_id()).map(|h| h.peer_id()));
+                    }
+                    let _ = format!("{:?} {:?}", registry, expect);
+                    tokio::time::sleep(Duration::from_micros(300 + 200 * t)).await;
+                    if Arc::strong_count(&bad) <= 2 {
+                        break; // the world is gone
+                    }
+                }
+            });
+        }
+    }
+    let mut w = World { limit, srv: RawConn::connect(srv_addr, chop).await?, srv2: RawConn::connect(srv_addr, 0).await?, proxy: RawConn::connect(proxy_addr, chop).await?, registry, reports, client, seen, next_id: 1 << 40, observer_bad };
     // one round trip on each connection: the server's connect hooks (registry insert) have run
     let id = w.fresh();
     w.srv.send(&RawFrame::request(id, false, 1, b"/ping", 2, b"null")).await?;
@@ -410,7 +543,12 @@ struct Spec {
     blen: usize,
 }
 
-const FRAME_PATHS: &[&str] = &["inline", "off", "joff", "push", "pushoff", "pushn", "bcast", "bcastj", "bcastu", "proxy"];
+const FRAME_PATHS: &[&str] = &["inline", "off", "joff", "push", "pushoff", "pushn", "pushrun", "bcast", "bcastj", "bcastu", "proxy"];
+
+/// Length of the run on the `pushrun` / `batchrun` kinds (from the id: on the op line, so a replay is exact).
+fn run_len(id: u64) -> usize {
+    [2usize, 9, 17, 65][(id % 4) as usize]
+}
 
 fn route_of(path: &str) -> &'static str {
     match path {
@@ -419,7 +557,7 @@ fn route_of(path: &str) -> &'static str {
         "joff" => "/jblob",
         "push" => "/push",
         "pushoff" => "/push_off",
-        "pushn" => "/pushn",
+        "pushn" | "pushrun" => "/pushn",
         _ => "",
     }
 }
@@ -436,10 +574,15 @@ fn cfg_limits(cfg: &str) -> Option<WebSocketLimits> {
             // `N,F,M`: assumed peer limit N with incoming frame / message limits F / M (`-` = none)
             let p: Vec<&str> = n.split(',').collect();
             let o = |x: &str| if x == "-" { None } else { Some(x.parse::<usize>().expect("limit")) };
+            // an optional 4th element is the server's outbound queue capacity (see `cfg_ocap`)
             Some(WebSocketLimits::default().with_max_incoming_frame_size(o(p[1])).with_max_incoming_message_size(o(p[2])).with_assumed_peer_frame_limit(o(p[0])))
         }
         n => Some(WebSocketLimits::default().with_assumed_peer_frame_limit(Some(n.parse().expect("limit")))),
     }
+}
+
+fn cfg_ocap(cfg: &str) -> Option<usize> {
+    cfg.split(',').nth(3).and_then(|x| x.parse().ok())
 }
 
 /// The assumption the endpoints must then be working with (the documented default for `d`).
@@ -452,7 +595,7 @@ fn cfg_effective(cfg: &str) -> Option<Option<usize>> {
     }
 }
 
-const CLIENT_KINDS: &[&str] = &["call", "notify", "cjson", "cjsont", "ctyped", "cbeve", "rwrite", "njson", "nbeve", "batch"];
+const CLIENT_KINDS: &[&str] = &["call", "notify", "cjson", "cjsont", "ctyped", "cbeve", "rwrite", "njson", "nbeve", "batch", "batchrun"];
 
 /// Number of characters whose BEVE string encoding is `blen` bytes long, if there is one.
 fn beve_chars(blen: usize) -> usize {
@@ -484,7 +627,8 @@ async fn run_frame(w: &mut World, s: &Spec) -> CaseResult {
     let path = s.kind.as_str();
     let seed = fnv(s.idx.as_bytes());
     let intended = 48 + s.qlen + s.blen;
-    let is_notify = matches!(path, "push" | "pushoff" | "pushn" | "bcast" | "bcastj" | "bcastu");
+    let is_notify = matches!(path, "push" | "pushoff" | "pushn" | "pushrun" | "bcast" | "bcastj" | "bcastu");
+    let copies = if path == "pushrun" { run_len(s.id) } else if path.starts_with("bcast") { 2 } else { 1 };
     let is_bcast = path.starts_with("bcast");
     // 1 in 4 of the handler-made responses is an error response of the handler's own
     let own_ec: u32 = if matches!(path, "inline" | "off" | "proxy") && seed % 4 == 0 { if seed % 8 == 0 { 4096 } else { 5 } } else { 0 };
@@ -538,9 +682,9 @@ async fn run_frame(w: &mut World, s: &Spec) -> CaseResult {
                 delivered = others;
                 response = Some(r);
             }
-            "push" | "pushoff" | "pushn" => {
+            "push" | "pushoff" | "pushn" | "pushrun" => {
                 let rid = w.fresh();
-                let body = serde_json::to_vec(&json!({"m": s.qlen, "n": s.blen, "s": seed})).unwrap();
+                let body = serde_json::to_vec(&json!({"m": s.qlen, "n": s.blen, "s": seed, "r": if path == "pushrun" { copies } else { 1 }})).unwrap();
                 w.srv.send(&RawFrame::request(rid, false, 1, route.as_bytes(), 2, &body)).await?;
                 let (others, r) = recv_answer(&mut w.srv, rid).await?;
                 delivered = others;
@@ -622,7 +766,7 @@ async fn run_frame(w: &mut World, s: &Spec) -> CaseResult {
     // the two small pushes around the sized one on the `pushn` path
     let chaff: Vec<RawFrame> = delivered.iter().filter(|f| f.h.notify != 0 && (f.query == b"/c1" || f.query == b"/c2")).cloned().collect();
     delivered.retain(|f| !(f.h.notify != 0 && (f.query == b"/c1" || f.query == b"/c2")));
-    if path == "pushn" && !broken {
+    if (path == "pushn" || path == "pushrun") && !broken {
         let mut c1 = RawFrame::request(0, true, 1, b"/c1", 0, &pattern(10, seed));
         c1.h.notify = 1;
         let mut c2 = RawFrame::request(0, true, 1, b"/c2", 0, &pattern(11, seed));
@@ -653,7 +797,7 @@ async fn run_frame(w: &mut World, s: &Spec) -> CaseResult {
         }
     };
     let rep = if reports.is_empty() || conn_is_proxy { " ; report -".to_string() } else { reports.iter().map(|(_, s, l)| format!(" ; report {} {}", s, l)).collect::<String>() };
-    let op = format!("frame {} {} {} {} {} {} {} {}", s.idx, path, s.cfg, is_notify as u8, if is_notify { 0 } else { s.id }, s.qlen, s.blen, rlen);
+    let op = format!("frame {} {} {} {} {} {} {} {}", s.idx, path, s.cfg, is_notify as u8, if is_notify && path != "pushrun" { 0 } else { s.id }, s.qlen, s.blen, rlen);
     let obs = format!("{} {}{}", s.idx, what, rep);
     // ---- direct oracles -----------------------------------------------------------------------
     if let Some(l) = s.limit {
@@ -673,6 +817,9 @@ async fn run_frame(w: &mut World, s: &Spec) -> CaseResult {
                 Some(b) if b == expected_bytes => {}
                 Some(b) => fail(&mut fails, "changed", format!("{}: a {}-byte message at or below the limit {} was not delivered unchanged (got {} bytes)", s.idx, intended, lim_str(s.limit), b.len())),
                 None => fail(&mut fails, "changed", format!("{}: a {}-byte message at or below the limit {} was not delivered", s.idx, intended, lim_str(s.limit))),
+            }
+            if path == "pushrun" && delivered.iter().filter(|f| f.h.notify != 0).map(|f| f.to_vec()).collect::<Vec<_>>() != vec![expected_bytes.clone(); copies] {
+                fail(&mut fails, "changed", format!("{}: {} copies of a {}-byte notification within the limit were pushed back to back; {} arrived unchanged", s.idx, copies, intended, delivered.iter().filter(|f| f.h.notify != 0 && f.to_vec() == expected_bytes).count()));
             }
             if is_bcast && delivered2.iter().map(|f| f.to_vec()).collect::<Vec<_>>() != vec![expected_bytes.clone()] {
                 fail(&mut fails, "changed", format!("{}: the second peer of the broadcast did not get the {}-byte notification unchanged ({} frame(s))", s.idx, intended, delivered2.len()));
@@ -707,7 +854,7 @@ async fn run_frame(w: &mut World, s: &Spec) -> CaseResult {
                 let want = (String::from_utf8_lossy(&exp_query).to_string(), intended, l);
                 // a query that is not UTF-8 has no method *name*: only size and limit are compared then
                 let same = |r: &(String, usize, usize)| (r.1, r.2) == (want.1, want.2) && (std::str::from_utf8(&exp_query).is_err() || r.0 == want.0);
-                if reports.len() != (if is_bcast { 2 } else { 1 }) || !reports.iter().all(same) {
+                if reports.len() != copies || !reports.iter().all(same) {
                     fail(&mut fails, "not_reported", format!("{}: refusal of a {}-byte message (limit {}) reported as {:?}", s.idx, intended, l, reports));
                 }
             }
@@ -758,8 +905,26 @@ async fn run_client(w: &mut World, s: &Spec) -> CaseResult {
                 Err(_) => Err(()),
             }
         }
+        "batchrun" => {
+            // a run of identical sized calls at once on the same client
+            let n = run_len(s.id);
+            let reqs: Vec<(String, Value)> = (0..n).map(|_| (path.clone(), json!(text))).collect();
+            match tokio::time::timeout(WATCHDOG, w.client.batch_json(reqs)).await {
+                Ok(v) if v.len() == n => {
+                    let first_class = |r: &Result<Value, RepeError>| match r { Ok(_) => 0, Err(RepeError::MessageTooLarge { .. }) => 1, Err(_) => 2 };
+                    neighbours_ok = v.iter().all(|r| first_class(r) == first_class(&v[0]));
+                    Ok(v.into_iter().next().unwrap().map(|_| ()))
+                }
+                Ok(_) => Ok(Err(RepeError::Io(std::io::Error::other("batch result count")))),
+                Err(_) => Err(()),
+            }
+        }
         _ => Ok(Err(RepeError::Io(std::io::Error::other("unknown client kind")))),
     };
+    let copies = if kind == "batchrun" { run_len(s.id) } else { 1 };
+    if kind == "batchrun" && !neighbours_ok {
+        fail(&mut fails, "run_disagrees", format!("{}: {} identical calls in one batch did not all end the same way", s.idx, copies));
+    }
     // one more request on the same client
     let follow = tokio::time::timeout(WATCHDOG, w.client.call_with_formats("/ping", 1, Some(b"null"), 2)).await;
     match &follow {
@@ -812,7 +977,7 @@ async fn run_client(w: &mut World, s: &Spec) -> CaseResult {
         if !matches!(res, Ok(Ok(()))) {
             fail(&mut fails, "refused_within_limit", format!("{}: a {}-byte {} within the limit {} returned {}", s.idx, intended, kind, lim_str(s.limit), class));
         }
-        let ok = mine.len() == 1 && {
+        let ok = mine.len() == copies && mine.iter().all(|m| m.len() == mine[0].len()) && {
             match RawFrame::parse_prefix(mine[0]) {
                 Some((f, n)) if n == mine[0].len() => {
                     let mut e = RawFrame::request(f.h.id, is_notify, 1, path.as_bytes(), bfmt, &body);
@@ -836,7 +1001,7 @@ fn gen_specs(rng: &mut Rng, thorough: bool) -> Vec<Spec> {
     // `200`: about the smallest limit that can carry the error reply; `64`: client kinds only (a smaller
     // limit than the reply is outside the property's premise on the server side); usize::MAX; incoming
     // limits below / without bound next to the assumed one
-    let mut cfgs: Vec<String> = ["1024", "4096", "65536", "1048576", "-", "u", "d", "200", "64", "18446744073709551615", "4096,100000,200000", "1024,-,-"].iter().map(|s| s.to_string()).collect();
+    let mut cfgs: Vec<String> = ["1024", "4096", "65536", "1048576", "-", "u", "d", "200", "64", "18446744073709551615", "4096,100000,200000", "1024,-,-", "1024,-,-,1", "-,-,-,2"].iter().map(|s| s.to_string()).collect();
     if thorough {
         cfgs.extend(["16777216", "300", "100000"].iter().map(|s| s.to_string()));
     }
@@ -850,6 +1015,9 @@ fn gen_specs(rng: &mut Rng, thorough: bool) -> Vec<Spec> {
         let extra_cfg = li >= 7;
         if cfg == "64" {
             kinds = CLIENT_KINDS.to_vec();
+        }
+        if cfg_ocap(cfg).is_some() {
+            kinds.retain(|k| !matches!(*k, "pushn" | "pushrun" | "bcast" | "bcastj" | "bcastu") && !CLIENT_KINDS.contains(k));
         }
         // endpoints built without any limits guard at 16 MiB: a few frames right at that boundary per path
         let heavy = cfg == "d";
@@ -933,7 +1101,7 @@ fn gen_specs(rng: &mut Rng, thorough: bool) -> Vec<Spec> {
                         _ => rng.range(1, 24.min((t - 48).max(1)) as u64) as usize,
                     },
                 };
-                let min_b = if matches!(k, "joff" | "bcastj" | "cjson" | "cjsont" | "ctyped" | "rwrite" | "njson" | "batch" | "cbeve" | "nbeve") { 2 } else { 0 };
+                let min_b = if matches!(k, "joff" | "bcastj" | "cjson" | "cjsont" | "ctyped" | "rwrite" | "njson" | "batch" | "batchrun" | "cbeve" | "nbeve") { 2 } else { 0 };
                 if t < 48 + qlen + min_b {
                     continue;
                 }
@@ -943,7 +1111,7 @@ fn gen_specs(rng: &mut Rng, thorough: bool) -> Vec<Spec> {
                     qlen += 1;
                     blen -= 1;
                 }
-                if heavy && matches!(k, "cbeve" | "nbeve" | "bcastj" | "bcastu" | "batch" | "cjsont" | "ctyped" | "rwrite" | "njson" | "cjson") {
+                if heavy && matches!(k, "cbeve" | "nbeve" | "bcastj" | "bcastu" | "batch" | "batchrun" | "pushrun" | "cjsont" | "ctyped" | "rwrite" | "njson" | "cjson") {
                     continue;
                 }
                 id += 1;
@@ -961,6 +1129,41 @@ fn gen_specs(rng: &mut Rng, thorough: bool) -> Vec<Spec> {
             }
         }
         rng.shuffle(&mut specs);
+        // N refusals of the same kind in a row, then one message that fits (the N-th is treated like the first)
+        if cfg == "1024" || (thorough && cfg == "4096") {
+            let l = lim.unwrap();
+            for (k, ns) in [("inline", vec![2usize, 8, 17]), ("bcast", vec![7, 9, 16]), ("call", vec![2, 9, 17]), ("push", vec![8]), ("notify", vec![16]), ("proxy", vec![7])] {
+                for n in ns.into_iter().chain(if thorough { vec![64usize, 65, 256] } else { vec![] }) {
+                    for j in 0..=n {
+                        id += 1;
+                        let t = if j < n { l + 1 + rng.below(40) as usize } else { l - rng.below(3) as usize };
+                        let qlen = if matches!(k, "inline" | "proxy") { route_of(k).len() } else { 5 };
+                        specs.push(Spec { idx: String::new(), kind: k.to_string(), cfg: cfg.clone(), limit: *lim, id, qlen, blen: t - 48 - qlen });
+                    }
+                }
+            }
+        }
+        // far over a small limit AND over the transport's write buffer (128 KiB)
+        if matches!(cfg.as_str(), "1024" | "4096" | "65536" | "200") {
+            for k in ["inline", "bcast", "call", "notify", "push", "proxy"] {
+                id += 1;
+                specs.push(Spec { idx: String::new(), kind: k.to_string(), cfg: cfg.clone(), limit: *lim, id, qlen: 5, blen: 200_000 + rng.below(5000) as usize });
+            }
+        }
+        // sizes around the transport's write buffer (tungstenite: 128 KiB) inside a larger limit / no limit
+        if cfg == "1048576" || cfg == "-" {
+            for k in ["inline", "bcast", "call", "proxy"] {
+                for t in [(128usize << 10) - 1, 128 << 10, (128 << 10) + 1, (128 << 10) + 14] {
+                    id += 1;
+                    specs.push(Spec { idx: String::new(), kind: k.to_string(), cfg: cfg.clone(), limit: *lim, id, qlen: 5, blen: t - 53 });
+                }
+            }
+        }
+        // beyond the default *message* limit (64 MiB) with no assumed limit: thorough only
+        if thorough && cfg == "u" {
+            id += 1;
+            specs.push(Spec { idx: String::new(), kind: "inline".to_string(), cfg: cfg.clone(), limit: *lim, id, qlen: 5, blen: (64 << 20) + 1 });
+        }
         for (i, mut s) in specs.into_iter().enumerate() {
             s.idx = format!("{}.{}", li, i);
             out.push(s);
@@ -1026,6 +1229,10 @@ fn main() {
             out.case(&r.op, &r.obs, over || near);
             for (sig, detail) in &r.fails {
                 out.oracle_fail(sig, detail, &[r.op.clone()]);
+            }
+            let seen_bad: Vec<String> = std::mem::take(&mut *worlds.get(&s.cfg).unwrap().observer_bad.lock().unwrap());
+            for b in seen_bad.iter().take(1) {
+                out.oracle_fail("limits.observer", &format!("while the cases ran an observer saw: {}", b), &[r.op.clone()]);
             }
             if r.broken {
                 worlds.remove(&s.cfg);
